@@ -123,7 +123,12 @@ def finish(rep, wall, root):
         "violation_sigs": sorted(rep._sig_seen)[:400],
     }
     check_evidence(ev)
-    with open(os.path.join(root, "evidence", f"{rep.pid}.json"), "w") as f:
+    evdir = os.path.join(root, "evidence")
+    if os.environ.get("VERIF_REPO"):
+        # mutation experiments against a scratch worktree must never overwrite the evidence of the real tree
+        evdir = os.path.join("/tmp", "vf-scratch-evidence")
+        os.makedirs(evdir, exist_ok=True)
+    with open(os.path.join(evdir, f"{rep.pid}.json"), "w") as f:
         json.dump(ev, f, indent=1, default=str)
     summary = {k: v for k, v in cov.items() if isinstance(v, (int, float, bool))}
     print(f"{rep.pid} tier={rep.tier} seed={rep.seed} wall={wall:.1f}s violations={n_unknown_sigs} coverage={summary}")
